@@ -186,7 +186,7 @@ Verdict modelProp(Ctx& c) {
     ModelPlan::Base b; b.viaAdd = c.chance(1, 3);
     const int n = c.ipick(0, 4);
     std::set<int> keys;
-    for (int k = 0; k < n; ++k) { int key = b.viaAdd || c.chance(2, 3) ? k + 1 : c.ipick(1, 9); if (!keys.insert(key).second) continue; b.texts.emplace_back(key, c.chance(1, 4) ? "\xD1\x8D\xD0\xBB" + std::to_string(key) : "el" + std::to_string(key)); }
+    for (int k = 0; k < n; ++k) { int key = b.viaAdd || c.chance(2, 3) ? k + 1 : c.ipick(-2, 9); if (!keys.insert(key).second) continue; b.texts.emplace_back(key, c.chance(1, 4) ? "\xD1\x8D\xD0\xBB" + std::to_string(key) : "el" + std::to_string(key)); }
     p.bases.push_back(b);
   }
   p.structKind = c.ipick(0, 6);
